@@ -93,6 +93,7 @@ func switchToParentThread(L *LState, nargs int, haserror bool, kill bool) {
 		}
 	}
 	L.XMoveTo(parent, nargs)
+	L.yieldNRet = L.currentFrame.NRet
 	L.stack.Pop()
 	offset := L.currentFrame.LocalBase - L.currentFrame.ReturnBase
 	L.currentFrame = L.stack.Last()
